@@ -1,12 +1,13 @@
 (* C03 - Go values placed into JavaScript arrive as data only.
    This file holds property statements only; each is closed by [exact].
    Model: model/JsEsc.v (replacement tables regenerated from the live code into gen/Tables03.v).
-   Specification: spec/JsLex.v, spec/JsScript.v (whole script elements).   Proofs: proofs/JsEscProof.v, proofs/JsScriptProof.v.
+   Specification: spec/JsLex.v, spec/JsScript.v (whole script elements).   Proofs: proofs/JsEscProof.v, proofs/JsScriptProof.v,
+   proofs/JsLinesProof.v (line endings).
    Script parser model: model/JsTrack.v; a process parsing one element after another: model/JsHist.v, proofs/JsHistProof.v. *)
 From Coq.Strings Require Import Byte String.
 From Coq Require Import List NArith Bool.
 Import ListNotations.
-From V Require Import lib.Bytes lib.Utf8 spec.JsLex spec.JsScript model.JsEsc model.JsTrack model.JsHist proofs.JsEscProof proofs.JsScriptProof proofs.JsHistProof.
+From V Require Import lib.Bytes lib.Utf8 spec.JsLex spec.JsScript model.JsEsc model.JsTrack model.JsHist proofs.JsEscProof proofs.JsScriptProof proofs.JsLinesProof proofs.JsHistProof.
 
 (* ---- values placed INSIDE a string literal ('...', "..." or `...`) --------------------------------- *)
 
@@ -138,7 +139,10 @@ Print Assumptions C03_call_attr_inert.
    ScriptContentOutsideStringLiteral in script text), the rendering has the token structure of the author's template:
    no value adds, removes, splits or joins a token.  (The literals' values are the subject of
    C03_script_content_inside and C03_json_roundtrip_partial.)  [lexes_cleanly]: the template lexes without stopping,
-   its text is cut at rune boundaries, and no "$" of the author stands directly before a hole in a template literal. *)
+   its text is cut at rune boundaries, no "$" of the author stands directly before a hole in a template literal, and no
+   EMPTY value stands between the CR of a "backslash CR" line continuation and an LF of the author (see
+   C03_ex_hole_after_backslash_cr).  Line continuations in all their forms (backslash LF, backslash CR LF, backslash CR,
+   backslash U+2028/9), holes directly after them, and raw line breaks in template literals are inside the fragment. *)
 Theorem C03_values_confined_partial : forall (vals : list bytes) (tpl : list sym),
   lexes_cleanly vals tpl = true ->
   skeleton (lex_script [] (bytes_syms (render (positions (lex_script vals tpl)) vals tpl))) = skeleton (lex_script vals tpl).
@@ -191,6 +195,85 @@ Theorem C03_script_structure_partial : forall (vals : list bytes) (tpl : list sy
   skeleton (lex_script [] (bytes_syms (render (flags (track (tpl ++ map SB end_tag))) vals tpl))) = skeleton (lex_script vals tpl).
 Proof. exact script_structure. Qed.
 Print Assumptions C03_script_structure_partial.
+
+(* ---- line endings -------------------------------------------------------------------------------------------- *)
+(* [crlf tpl] is the template saved with CR LF line endings: every LF of the author's text - between statements, at the
+   end of a comment, inside a template literal, after the backslash of a line continuation, inside a literal that is
+   not closed on its line - becomes CR LF.
+
+   templ's quote tracker (model/JsTrack.v) gives the CR LF file the verdicts of the LF file: the same expressions
+   recognised or swallowed, the same InsideStringLiteral flags, the contents ended at the same symbol.  For EVERY
+   template - JavaScript or not, inside any fragment or not: the quote state does not depend on how lines end. *)
+Theorem C03_tracker_line_endings : forall tpl : list sym,
+  track (crlf tpl) = map (crlf_end tpl) (track tpl) /\
+  flags (track (crlf tpl ++ map SB end_tag)) = flags (track (tpl ++ map SB end_tag)).
+Proof. intros tpl. split; [apply tracker_crlf|apply tracker_crlf_flags]. Qed.
+Print Assumptions C03_tracker_line_endings.
+
+(* A JavaScript lexer gives the holes of a template written with LF line endings the same lexical positions in the CR LF
+   file (backslash CR LF is one line continuation; a raw CR ends the line inside '...' / "..." as LF does; CR LF in a
+   template literal is one line break). *)
+Theorem C03_lexer_line_endings : forall (vals : list bytes) (tpl : list sym), no_cr tpl = true ->
+  positions (lex_script vals (crlf tpl)) = positions (lex_script vals tpl).
+Proof. exact lexer_crlf. Qed.
+Print Assumptions C03_lexer_line_endings.
+
+(* Hence the parser flags every hole of the CR LF file by its lexical position in THAT file, on the fragment of
+   C03_tracker_agrees_partial. *)
+Theorem C03_crlf_file_judged_partial : forall (vals : list bytes) (tpl : list sym),
+  tracker_fragment vals tpl = true -> no_cr tpl = true ->
+  flags (track (crlf tpl ++ map SB end_tag)) = positions (lex_script vals (crlf tpl)).
+Proof. exact crlf_judged. Qed.
+Print Assumptions C03_crlf_file_judged_partial.
+
+(* The statements separate the code as it is from a tracker that drops the quote state at a bare LF inside '...' / "..."
+   ("the literal cannot go on past the end of its line"): with LF endings the continuation  backslash LF  is consumed as
+   one escape and nothing shows; in the CR LF file the escape takes backslash CR, the LF arrives alone, and the hole on
+   the continued line would be flagged outside - [false] below.  Its value is then written as a JSON string inside the
+   open literal: the literal ends at the value's first quote and the rest is script text. *)
+Definition dq_open : list sym := syms "a = " ++ [SB x22; SB x78; SB x5c].        (* a = , double quote, x, backslash *)
+Definition dq_close : list sym := [SB x22; SB x3b].                             (* double quote, semicolon *)
+Definition tpl_cont_lf : list sym := dq_open ++ [SB x0a; SH 0] ++ dq_close.
+Definition vals_cont : list bytes := [bs ";alert(1)//"].
+Example C03_crlf_continuation :
+  crlf tpl_cont_lf = dq_open ++ [SB x0d; SB x0a; SH 0] ++ dq_close /\
+  fragment vals_cont tpl_cont_lf = true /\ fragment vals_cont (crlf tpl_cont_lf) = true /\
+  flags (track (tpl_cont_lf ++ map SB end_tag)) = [true] /\
+  flags (track (crlf tpl_cont_lf ++ map SB end_tag)) = [true] /\
+  positions (lex_script vals_cont (crlf tpl_cont_lf)) = [true] /\
+  toks_of (lex_script vals_cont (crlf tpl_cont_lf)) = [TCode (bs "a = "); TStr (Some (bs "x;alert(1)//")); TCode (bs ";")] /\
+  toks_of (lex_script [] (bytes_syms (render [true] vals_cont (crlf tpl_cont_lf)))) =
+    [TCode (bs "a = "); TStr (Some (bs "x;alert(1)//")); TCode (bs ";")] /\
+  toks_of (lex_script [] (bytes_syms (render [false] vals_cont (crlf tpl_cont_lf)))) =
+    [TCode (bs "a = "); TStr (Some (bs "x")); TCode (bs ";alert(1)"); TCom ([x2f; x2f; x22; x22; x3b])].
+Proof. vm_compute. repeat split; reflexivity. Qed.
+
+(* A hole directly after  backslash CR  (a file with CR line endings): the continuation is complete, the hole is inside
+   the literal, the tracker says so, and the template is in the fragment.  The junction clause of [lexes_cleanly] is
+   needed: in  a = `x backslash CR <hole> LF y`;  an EMPTY value lets the author's CR and LF meet as one line continuation,
+   and the literal denotes xy instead of x LF y (harmless; no escaper can repair an empty value). *)
+Definition tpl_bs_cr : list sym := syms "a = 'x" ++ [SB x5c; SB x0d; SH 0] ++ syms "y';".
+Definition tpl_bs_cr_lf : list sym := syms "a = `x" ++ [SB x5c; SB x0d; SH 0; SB x0a] ++ syms "y`;".
+Example C03_ex_hole_after_backslash_cr :
+  fragment [bs "v"] tpl_bs_cr = true /\ fragment [[]] tpl_bs_cr = true /\
+  positions (lex_script [bs "v"] tpl_bs_cr) = [true] /\ flags (track (tpl_bs_cr ++ map SB end_tag)) = [true] /\
+  toks_of (lex_script [bs "v"] tpl_bs_cr) = [TCode (bs "a = "); TStr (Some (bs "xvy")); TCode (bs ";")] /\
+  lexes_cleanly [bs "v"] tpl_bs_cr_lf = true /\ lexes_cleanly [[]] tpl_bs_cr_lf = false /\
+  toks_of (lex_script [[]] tpl_bs_cr_lf) = [TCode (bs "a = "); TStr (Some (bs "x" ++ [x0a] ++ bs "y")); TCode (bs ";")] /\
+  toks_of (lex_script [] (bytes_syms (render [true] [[]] tpl_bs_cr_lf))) = [TCode (bs "a = "); TStr (Some (bs "xy")); TCode (bs ";")].
+Proof. vm_compute. repeat split; reflexivity. Qed.
+
+(* A literal that is not closed on its line is not JavaScript: lexing stops at the line break (TStop L), in the template
+   and in every rendering alike, and the holes behind the stop have no lexical position; the tracker goes on with the quote
+   open (the hole on the next line is flagged inside), in the LF and in the CR LF file. *)
+Definition tpl_open : list sym := syms "a = 'x" ++ [SB x0a] ++ syms "b = " ++ [SH 0] ++ syms ";".
+Example C03_ex_literal_open_at_line_end :
+  toks_of (lex_script [bs "v"] tpl_open) = [TCode (bs "a = "); TStop x4c] /\
+  positions (lex_script [bs "v"] tpl_open) = [] /\
+  toks_of (lex_script [] (bytes_syms (render [true] [bs "v"] tpl_open))) = [TCode (bs "a = "); TStop x4c] /\
+  toks_of (lex_script [] (bytes_syms (render [false] [bs "v"] tpl_open))) = [TCode (bs "a = "); TStop x4c] /\
+  flags (track (tpl_open ++ map SB end_tag)) = [true] /\ flags (track (crlf tpl_open ++ map SB end_tag)) = [true].
+Proof. vm_compute. repeat split; reflexivity. Qed.
 
 (* ---- a process that parses one script element after another ------------------------------------------------- *)
 (* model/JsHist.v threads the quote tracker's state through a sequence of elements as the parser meets them - the
